@@ -4,6 +4,8 @@ import RV.Gen.C01Saba
 import RV.Gen.C01Eos
 import RV.Gen.C01Leapfrog
 import RV.Proofs.Reversal
+import RV.Proofs.Janus
+import RV.Model.C10Saba
 /-
   C10 on the operator schedules the code really runs.  `rv/extract_c01.py` (builder b-c01; read-only
   here) derives, by executing the control flow of the C text, the exact list of primitive-operator calls
@@ -84,5 +86,144 @@ theorem eosFull_palin (outer inner : List Op) (ho : RawPalin outer) (hi : RawPal
   split
   · rw [← List.map_reverse, hi]
   · rfl
+
+/-! ### SABA: the step model of RV/Model/C10Saba.lean is a raw palindrome for EVERY stage count and EVERY pair of
+    coefficient tables — the two mirror-index computations of `reb_integrator_saba_part2` make it one -/
+
+open RV.C10Saba in
+theorem driftIdx_mirror (S j : Nat) (h1 : 1 ≤ j) (h2 : j < S) : driftIdx S (S - j) = driftIdx S j := by
+  unfold driftIdx
+  split <;> split <;> omega
+
+open RV.C10Saba in
+theorem kickIdx_mirror (S j : Nat) (h : j < S) : kickIdx S (S - 1 - j) = kickIdx S j := by
+  unfold kickIdx
+  split <;> split <;> omega
+
+/-- the state-moving operator at position `k` (0 … 2S) of a SABA step, for total coefficient functions -/
+def sabaOpAt (cf df : Nat → Rat) (S k : Nat) : Op :=
+  if k % 2 = 1 then ⟨1, df (RV.C10Saba.kickIdx S (k / 2)), 0⟩
+  else if k = 0 then ⟨0, cf 0, 1⟩
+  else if k = 2 * S then ⟨0, cf 0, 1⟩
+  else ⟨0, cf (RV.C10Saba.driftIdx S (k / 2)), 1⟩
+
+theorem moves_cons3 (a b : Rat) (rest : List Op) :
+    moves ((⟨0, a, 1⟩ : Op) :: ⟨2, 0, 0⟩ :: ⟨1, b, 0⟩ :: rest) = ⟨0, a, 1⟩ :: ⟨1, b, 0⟩ :: moves rest := by
+  simp [moves, List.filter_cons]
+
+theorem moves_append (l₁ l₂ : List Op) : moves (l₁ ++ l₂) = moves l₁ ++ moves l₂ := by
+  simp [moves, List.filter_append]
+
+open RV.C10Saba in
+theorem saba_loop_moves (S : Nat) (c d : List Rat) (cf df : Nat → Rat)
+    (hc : ∀ i x, c[i]? = some x → cf i = x) (hd : ∀ i x, d[i]? = some x → df i = x) (n : Nat) :
+    ∀ j m, 1 ≤ j → j + n ≤ S → loop S c d j n = some m →
+      moves m = (List.range' (2 * j) (2 * n)).map (sabaOpAt cf df S) := by
+  induction n with
+  | zero =>
+    intro j m _ _ h
+    simp only [loop] at h
+    injection h with h
+    subst h
+    rfl
+  | succ n ih =>
+    intro j m h1 h2 h
+    unfold loop at h
+    split at h
+    · rename_i ci di rest hci hdi hrest
+      injection h with h
+      subst h
+      rw [moves_cons3, ih (j + 1) rest (by omega) (by omega) hrest]
+      have e : 2 * (n + 1) = (2 * n + 1) + 1 := by omega
+      rw [e, List.range'_succ, List.range'_succ]
+      have e2 : 2 * j + 1 + 1 = 2 * (j + 1) := by omega
+      simp only [List.map_cons, e2]
+      have o1 : sabaOpAt cf df S (2 * j) = ⟨0, ci, 1⟩ := by
+        unfold sabaOpAt
+        have a1 : ¬ (2 * j % 2 = 1) := by omega
+        have a2 : ¬ (2 * j = 0) := by omega
+        have a3 : ¬ (2 * j = 2 * S) := by omega
+        have a4 : 2 * j / 2 = j := by omega
+        simp only [a1, a2, a3, a4, if_false, hc _ _ hci]
+      have o2 : sabaOpAt cf df S (2 * j + 1) = ⟨1, di, 0⟩ := by
+        unfold sabaOpAt
+        have a1 : (2 * j + 1) % 2 = 1 := by omega
+        have a4 : (2 * j + 1) / 2 = j := by omega
+        simp only [a1, a4, if_true, hd _ _ hdi]
+      rw [o1, o2]
+    · exact absurd h (by simp)
+
+open RV.C10Saba in
+theorem saba_step_moves (S : Nat) (hS : 1 ≤ S) (c d : List Rat) (cf df : Nat → Rat)
+    (hc : ∀ i x, c[i]? = some x → cf i = x) (hd : ∀ i x, d[i]? = some x → df i = x) (l : List Op)
+    (h : step S c d = some l) :
+    moves l = (List.range' 0 (2 * S + 1)).map (sabaOpAt cf df S) := by
+  unfold step at h
+  split at h
+  · rename_i c0 d0 mid hc0 hd0 hmid
+    injection h with h
+    subst h
+    rw [moves_cons3, moves_append, saba_loop_moves S c d cf df hc hd (S - 1) 1 mid (by omega) (by omega) hmid]
+    have e : 2 * S + 1 = 2 + (2 * (S - 1) + 1) := by omega
+    have r1 : List.range' 0 (2 * S + 1) = 0 :: 1 :: (List.range' 2 (2 * (S - 1)) ++ [2 * S]) := by
+      rw [e, ← List.range'_append_1 (s := 0) (m := 2) (n := 2 * (S - 1) + 1)]
+      have : List.range' 0 2 = [0, 1] := by decide
+      rw [this, List.range'_concat]
+      simp only [Nat.zero_add, List.cons_append, List.nil_append]
+      have e4 : 2 + 1 * (2 * (S - 1)) = 2 * S := by omega
+      rw [e4]
+    rw [r1]
+    simp only [List.map_cons, List.map_append, List.map_nil, Nat.mul_one]
+    have o0 : sabaOpAt cf df S 0 = ⟨0, c0, 1⟩ := by
+      unfold sabaOpAt; simp [hc _ _ hc0]
+    have o1 : sabaOpAt cf df S 1 = ⟨1, d0, 0⟩ := by
+      unfold sabaOpAt
+      have : kickIdx S 0 = 0 := by unfold kickIdx; simp
+      simp [this, hd _ _ hd0]
+    have oS : sabaOpAt cf df S (2 * S) = ⟨0, c0, 1⟩ := by
+      unfold sabaOpAt
+      have a1 : ¬ (2 * S % 2 = 1) := by omega
+      have a2 : ¬ (2 * S = 0) := by omega
+      simp only [a1, a2, if_false, if_true, hc _ _ hc0]
+    rw [o0, o1, oS]
+    simp [moves, List.filter_cons]
+  · exact absurd h (by simp)
+
+theorem sabaOpAt_mirror (cf df : Nat → Rat) (S : Nat) (hS : 1 ≤ S) (k : Nat) (hk : k ≤ 2 * S) :
+    sabaOpAt cf df S (2 * S - k) = sabaOpAt cf df S k := by
+  unfold sabaOpAt
+  by_cases p : k % 2 = 1
+  · have p' : (2 * S - k) % 2 = 1 := by omega
+    have e : (2 * S - k) / 2 = S - 1 - k / 2 := by omega
+    simp only [p, p', if_true, e]
+    rw [kickIdx_mirror S (k / 2) (by omega)]
+  · have p' : ¬ ((2 * S - k) % 2 = 1) := by omega
+    simp only [p, p', if_false]
+    by_cases k0 : k = 0
+    · subst k0
+      have a3 : 2 * S - 0 = 2 * S := by omega
+      simp only [a3, if_true]
+      split <;> rfl
+    · by_cases kS : k = 2 * S
+      · subst kS
+        have a1 : 2 * S - 2 * S = 0 := by omega
+        have a2 : ¬ (2 * S = 0) := by omega
+        simp only [a1, a2, if_false, if_true]
+      · have a1 : ¬ (2 * S - k = 0) := by omega
+        have a2 : ¬ (2 * S - k = 2 * S) := by omega
+        simp only [k0, kS, a1, a2, if_false]
+        have e1 : (2 * S - k) / 2 = S - k / 2 := by omega
+        rw [e1, driftIdx_mirror S (k / 2) (by omega) (by omega)]
+
+/-- for every stage count and every coefficient tables: the SABA step model is a raw palindrome -/
+theorem saba_step_palindrome (S : Nat) (hS : 1 ≤ S) (c d : List Rat) (l : List Op)
+    (h : RV.C10Saba.step S c d = some l) : RawPalin l := by
+  let cf : Nat → Rat := fun i => match c[i]? with | some x => x | none => 0
+  let df : Nat → Rat := fun i => match d[i]? with | some x => x | none => 0
+  have hc : ∀ i x, c[i]? = some x → cf i = x := by intro i x hx; simp only [cf, hx]
+  have hd : ∀ i x, d[i]? = some x → df i = x := by intro i x hx; simp only [df, hx]
+  unfold RawPalin
+  rw [saba_step_moves S hS c d cf df hc hd l h]
+  exact RV.Janus.map_range'_reverse _ _ (fun k hk => sabaOpAt_mirror cf df S hS k hk)
 
 end RV.C10S
